@@ -49,6 +49,12 @@ def gen_problem(rng, t):
             m.pop("H_c", None); m.pop("LamType", None); m.pop("LamFill", None)
             if rng.random() < 0.3:
                 m["J_im"] = rng.choice([0.5, -1.0])
+        # a circuit region whose own material carries a complex source density: the circuit current is the TOTAL the region carries,
+        # so the solver has to offset the material's density (real and imaginary part) when it derives the applied one
+        for lab in p.labels:
+            if lab["circ"] >= 0 and lab["block"] >= 0 and rng.random() < 0.5:
+                p.blockprops[lab["block"]]["J_re"] = rng.choice([0.25, -1.0])
+                p.blockprops[lab["block"]]["J_im"] = rng.choice([0.75, -0.5])
         for b in p.bdryprops:
             if b["type"] == 0:
                 b["Phi"] = rng.choice([0.0, 30.0, 90.0])
@@ -339,7 +345,7 @@ def main(argv):
                 if len(pa.labels) > 1 and rng.random() < 0.34:
                     # an EXTERNAL (Kelvin-transformed) region: [extZo] [extRo] [extRi] and a block label flagged external
                     W_ = max(n_["x"] for n_ in pa.nodes)
-                    pa.ext = (rng.choice([0.0, 1.5]), rng.choice([2.0 * W_, 20.0]), rng.choice([W_, 8.0]))
+                    pa.ext = (rng.choice([1.5, -0.75, 0.0, 3.0]), rng.choice([2.0 * W_, 20.0]), rng.choice([W_, 8.0]))
                     rng.choice(pa.labels[1:])["ext"] = 1
                     stats["external_region_problems"] = stats.get("external_region_problems", 0) + 1
                 runa = Run(build, work, "p%d_axi" % t, pa)
